@@ -120,6 +120,11 @@ def run_cases(requires, check_fn, case_type, terms, workdir, shard=250, timeout=
         for fut in cf.as_completed(futs):
             k, path = futs[fut]
             rc, out, err = fut.result()
+            if rc == 124:
+                # a time-out is an infrastructure event (16 shards in parallel on a loaded machine):
+                # evaluate the shard once more, alone and with three times the budget, before
+                # counting it as a broken correspondence
+                rc, out, err = _coqc(path, timeout * 3)
             if rc != 0:
                 errors.append("coqc failed on %s (rc=%s): %s" % (path, rc, (err or out)[-1500:]))
                 continue
